@@ -44,8 +44,8 @@ Proof. exact trace_one_correct. Qed.
 Print Assumptions trace_one_eq_origin.
 
 (* the whole inventory of an image, in any order, with the shared cache starting empty.
-   pkg_ok = the package has a location, its first location is never a symbolic link (domain D), it is
-   in the final view, and no extraction of that location cancels the scan context. *)
+   pkg_ok = the package has a location, its first location (the file it was read from: ScanResult keeps
+   it first) is never a symbolic link (domain D), it is in the final view, and no extraction of that location cancels the scan context. *)
 Theorem trace_eq_origin_on_D : forall h pkgs,
   0 < length h ->
   (forall lp, In lp pkgs -> pkg_ok h lp) ->
@@ -84,23 +84,19 @@ Proof.
 Qed.
 Print Assumptions symlinked_location_refuted.
 
-(* A second way out of D: a package with two locations.  ScanResult sorts every package's Locations
-   before PopulateLayerDetails runs, and the trace takes Locations[0] for the file the package was read
-   from.  Package 1 is read from file 2 (written by layer 1) and also names file 3; sorted, its
-   locations are [3; 2] (the harness's "c.list" < "pkgs/b.list"), so the trace re-reads file 3, never
-   finds the package there and lands on the last (empty) layer; the package's own file says layer 1. *)
-Definition ex_sorted_image : list clayer :=
+(* Regression of the fixed finding multi-location-package-traced-through-sorted-first-location: package 1
+   is read from file 2 (written by layer 1) and also names file 3.  Since fix 57324273 ScanResult keeps
+   the source file first ([2; 3]) and the trace lands on layer 1; traced through [3; 2], as before the
+   fix, it landed on the last (empty) layer. *)
+Definition ex_two_locations_image : list clayer :=
   [ mkCL 1 11 false [(2, LDelete); (3, LWrite [2; 1])]; mkCL 2 12 false [(2, LWrite [1]); (3, LWrite [2])];
     mkCL 3 0 true [] ]%N.
 
-Theorem sorted_locations_refuted :
-  exists h locs src p,
-    In src locs /\ link_free h src = true /\ link_free h (primary locs) = true /\
-    present (lview h src) p (pred (length h)) = true /\
-    origin (lview h src) (length h) p = 1 /\
-    trace_all h [(locs, p)] [] false = [2].
-Proof. exists ex_sorted_image, [3; 2]%N, 2%N, 1%N. vm_compute. repeat split. right. left. reflexivity. Qed.
-Print Assumptions sorted_locations_refuted.
+Example two_locations_example :
+  origin (lview ex_two_locations_image 2%N) 3 1%N = 1 /\
+  trace_all ex_two_locations_image [([2; 3]%N, 1%N)] [] false = [1] /\
+  trace_all ex_two_locations_image [([3; 2]%N, 1%N)] [] false = [2].
+Proof. vm_compute. repeat split. Qed.
 
 (* removed and re-added: attributed to the re-adding layer c, whatever happened before *)
 Theorem readded_attributed_to_readder : forall vw n p c,
